@@ -541,6 +541,9 @@ var $equal = (a, b, type) => {
         case $kindStruct:
             for (var i = 0; i < type.fields.length; i++) {
                 var f = type.fields[i];
+                if (f.name === "_") {
+                    continue; /* blank fields are ignored */
+                }
                 if (!$equal(a[f.prop], b[f.prop], f.typ)) {
                     return false;
                 }
